@@ -8,16 +8,27 @@ import os, sys
 sys.path.insert(0, os.path.join(os.path.dirname(os.path.abspath(__file__)), "..", "C39"))
 from vlib import guarded_main
 import gbcommon as G
+import gencommon as GC
 
 
 def main(c):
     if c.replay:
         return G.replay(c, "C40")
+    wait_generated = GC.start_stage(c, "C40")
     exe, lines = G.run_driver(c)
-    if lines is None:
+    hlines = G.run_driver_h(c) if lines is not None else None
+    if lines is None or hlines is None:
+        wait_generated()
         return
     findings = []
     nfail = 0
+    for l in hlines:
+        d, ch, ob = G.parse(l)
+        failed = ob["ret"] == "-1"
+        nfail += failed
+        c.count(1, (d["fn"], d["hyp"], d["tr"], d["K0"], d["K1"], d["K2"], tuple(sorted(ch.items()))), failed)
+        for f in G.spec_check_h(d, ch, ob):
+            findings.append(f + (d, l))
     for l in lines:
         d, ch, ob = G.parse(l)
         failed = ob["ret"] == "-1"
@@ -35,7 +46,17 @@ def main(c):
             continue
         seen.add(k)
         c.report(k, w, {"line": l, "replay": G.replay_of(d)}, True)
-    bad, nok = G.correspondence(c, lines, v, "C40")
+    g = wait_generated()
+    glines = []
+    if g is not None:
+        glines, gfind, ginfo = g
+        c.notes.append("EXECUTION of mfront-generated behaviours through the generated extern \"C\" entry points: %s" % ginfo)
+        gseen = set()
+        for (p, k, w, l) in gfind:
+            if p == "C40" and k not in gseen:
+                gseen.add(k)
+                c.report(k, w, {"line": l, "how": "props/C39/gdriver.cxx on the behaviours generated from props/C39/mfront/*.in (gencommon.py)"}, True)
+    bad, nok = G.correspondence(c, lines + hlines + glines, v, "C40")
     if bad is None:
         return
     c.coverage["traces_validated_against_impl"] = nok
@@ -48,6 +69,7 @@ def main(c):
     files = G.model_sources(c, "C40") + [gen, "Properties_C40.v"]
     files.append("Properties_C40_integrate_refuted.v" if v["v_late_throw"] else "Properties_C40_integrate.v")
     files.append("Properties_C40_wrappers_refuted.v" if (v["v_late_throw"] or v["v_wrap_nonzero"]) else "Properties_C40_wrappers.v")
+    files.append("Properties_C40_hypotheses.v")
     res = c.coq(files, timeout=900)
     if not res.ok:
         if c.violations and any(x[3] for x in c.violations):
@@ -60,7 +82,9 @@ def main(c):
     c.coverage["rule"] = ("exhaustive over fault sequences: every combination of hook outcomes (initialize false/throws, out of bounds under each "
                           "policy, a priori / a posteriori factor false/throws, integrate FAILURE/throws, computePredictionOperator false/throws, "
                           "exportTangentOperator on an unsupported alternative, computeInternalEnergy / computeDissipatedEnergy / "
-                          "computeSpeedOfSound throw) x traits x K[0] encodings x policies, through integrate and the three wrappers (3D); "
+                          "computeSpeedOfSound throw) x traits x K[0] encodings x policies, through integrate and the three wrappers (3D, and PlaneStress / "
+                          "AxisymmetricalGeneralisedPlaneStress / Axisymmetrical -- thorough: the six non-3D hypotheses -- with coarse images); EXECUTION "
+                          "(not exhaustive) of generated behaviours with scripted hook faults; "
                           "non-trivial = the call returned -1")
     c.coverage["exhaustive"] = True
 
